@@ -186,7 +186,8 @@ def main(argv=None):
     reported = 0
     for oname, r, o in failures:
         os.makedirs(replay_dir, exist_ok=True)
-        fn = re.sub(r'[^A-Za-z0-9_.=-]+', '_', oname)[:150] + '.json'
+        import hashlib
+        fn = re.sub(r'[^A-Za-z0-9_.=-]+', '_', oname)[:150] + '.' + hashlib.sha1(oname.encode()).hexdigest()[:6] + '.json'
         path = os.path.join(replay_dir, fn)
         scen = [s for s in scens if s.name == r['scenario']][0]
         det = o.get('detail', {})
